@@ -313,6 +313,15 @@ RESTART:
 		return tmconsensus.HandleProposedHeaderBadBlockHash
 	}
 
+	// The block hash only covers the validator hashes,
+	// so confirm the validator lists on the header are the ones those hashes commit to.
+	// Otherwise a copy of a valid proposed header with altered keys or powers
+	// would be stored, and adopted as the next height's validator set on commit.
+	if !m.validatorSetMatchesHashes(ph.Header.ValidatorSet) ||
+		!m.validatorSetMatchesHashes(ph.Header.NextValidatorSet) {
+		return tmconsensus.HandleProposedHeaderBadBlockHash
+	}
+
 	// Validate the signature based on the public key the kernel reported.
 	signContent, err := tmconsensus.ProposalSignBytes(ph.Header, ph.Round, ph.Annotations, m.sigScheme)
 	if err != nil {
@@ -425,6 +434,31 @@ RESTART:
 	// Is accepting here sufficient?
 	// We could adjust the addPHRequests channel to respond with a value if needed.
 	return tmconsensus.HandleProposedHeaderAccepted
+}
+
+// validatorSetMatchesHashes reports whether the validators and public keys in vs
+// hash to the public key hash and vote power hash that vs carries.
+func (m *Mirror) validatorSetMatchesHashes(vs tmconsensus.ValidatorSet) bool {
+	if len(vs.PubKeys) != len(vs.Validators) {
+		return false
+	}
+	for i, v := range vs.Validators {
+		if v.PubKey == nil || vs.PubKeys[i] == nil || !v.PubKey.Equal(vs.PubKeys[i]) {
+			return false
+		}
+	}
+
+	keyHash, err := m.hashScheme.PubKeys(vs.PubKeys)
+	if err != nil || !bytes.Equal(keyHash, vs.PubKeyHash) {
+		return false
+	}
+
+	powHash, err := m.hashScheme.VotePowers(tmconsensus.ValidatorsToVotePowers(vs.Validators))
+	if err != nil || !bytes.Equal(powHash, vs.VotePowerHash) {
+		return false
+	}
+
+	return true
 }
 
 func (m *Mirror) backfillCommitForNextHeightPE(
